@@ -345,6 +345,10 @@ def main(argv=None) -> int:
                     known_hits[sig]["count"] += 1
                 else:
                     violations.append(cand)
+        nsp = sum(1 for v in r["violations"] if not v.get("concrete", {}).get("reproduced"))
+        if nsp:
+            inconclusive.append(f"{cube.name}: {nsp} solver model(s) did not reproduce when the harness was re-run concretely "
+                                f"(engine-model artefact; those paths are undecided): e.g. {json.dumps(r['violations'][0].get('args'), default=str)[:200]}")
         if not r.get("confirmed") and not r["violations"]:
             inconclusive.append(
                 f"{cube.name}: not exhausted (paths={r['paths']}, unknown={r['unknown']}, stop={r['stop_reason']}, {r.get('unknown_reasons')})"
